@@ -1,10 +1,17 @@
 package props
 
 import (
+	"bytes"
 	"encoding/json"
 	"fmt"
+	"io"
 	"math/rand/v2"
 	"reflect"
+	"runtime"
+	"strings"
+	"testing/iotest"
+
+	jsonx "github.com/go-json-experiment/json"
 
 	"github.com/philpearl/avro"
 
@@ -147,8 +154,132 @@ var c14prev struct {
 	origin    string
 }
 
+// c14parseVia parses a document through one of the ways a caller has: SchemaFromString, or - Schema implements the
+// JSON library's unmarshalling interface - Unmarshal of a byte slice, UnmarshalRead from readers that deliver the
+// text in pieces, and a Schema that is one member of a larger document. The bytes handed in belong to the caller:
+// they are overwritten as soon as the parse returns, and a collection runs now and then before the comparison.
+func c14parseVia(c *core.Ctx, r *rand.Rand, text string) (s avro.Schema, entry string, err error) {
+	switch k := r.IntN(8); k {
+	case 0, 1:
+		entry = "SchemaFromString"
+		s, err = avro.SchemaFromString(text)
+	case 2:
+		entry = "json.Unmarshal of a byte slice"
+		buf := []byte(text)
+		err = jsonx.Unmarshal(buf, &s)
+		for i := range buf {
+			buf[i] = 'x'
+		}
+	case 3, 4, 5:
+		var rd io.Reader = strings.NewReader(text)
+		switch k {
+		case 3:
+			entry = "json.UnmarshalRead from a strings.Reader"
+		case 4:
+			entry = "json.UnmarshalRead, one byte per Read"
+			rd = iotest.OneByteReader(rd)
+		default:
+			entry = "json.UnmarshalRead, 1-97 bytes per Read"
+			rd = &c14pieces{src: []byte(text), n: 1 + r.IntN(97)}
+		}
+		err = jsonx.UnmarshalRead(rd, &s)
+	default:
+		entry = "json.Unmarshal of a larger document with a Schema member"
+		var w struct {
+			Before []int       `json:"before"`
+			Schema avro.Schema `json:"schema"`
+			After  string      `json:"after"`
+		}
+		buf := []byte(`{"before":[1,2,3],"schema":` + text + `,"after":"` + strings.Repeat("y", r.IntN(200)) + `"}`)
+		err = jsonx.Unmarshal(buf, &w)
+		for i := range buf {
+			buf[i] = 'x'
+		}
+		s = w.Schema
+		if err == nil && (len(w.Before) != 3 || !strings.HasPrefix(w.After+"y", "y")) {
+			err = fmt.Errorf("the members around the schema were not decoded: %v %q", w.Before, w.After)
+		}
+	}
+	c.Count("parse-entry."+entry, 1)
+	if r.IntN(50) == 0 {
+		runtime.GC()
+	}
+	return
+}
+
+// c14pieces hands out the text in pieces of n bytes.
+type c14pieces struct {
+	src []byte
+	n   int
+}
+
+func (p *c14pieces) Read(b []byte) (int, error) {
+	if len(p.src) == 0 {
+		return 0, io.EOF
+	}
+	n := min(p.n, len(p.src), len(b))
+	copy(b, p.src[:n])
+	p.src = p.src[n:]
+	return n, nil
+}
+
+var c14bad = []avro.Schema{
+	{Type: "record", Object: &avro.SchemaObject{Name: "bad\xff", Fields: []avro.SchemaRecordField{{Name: "a", Type: avro.Schema{Type: "long"}}}}},
+	{Type: "record", Object: &avro.SchemaObject{Name: "ok", Fields: []avro.SchemaRecordField{{Name: "a", Type: avro.Schema{Type: "long"}}, {Name: "caf\xe9", Type: avro.Schema{Type: "array", Object: &avro.SchemaObject{Items: avro.Schema{Type: "string"}}}}}}},
+	{Type: "enum", Object: &avro.SchemaObject{Name: "e", Symbols: []string{"A", "\xc3"}}},
+	{Type: "union", Union: []avro.Schema{{Type: "null"}, {Type: "fixed", Object: &avro.SchemaObject{Name: "\xf0\x28", Size: 4}}}},
+}
+
+var c14calls int
+
+// c14marshalVia serialises through one of the ways a caller has: the Marshal method, or - Schema implements the
+// JSON library's marshalling interface - Marshal / MarshalWrite of the value, and a Schema inside a larger value.
+// Now and then a schema that cannot be serialised (a name that is not UTF-8) is serialised just before, whatever
+// that call returns: one call's failure is not the next call's business.
+func c14marshalVia(c *core.Ctx, s *avro.Schema) (out []byte, entry string, err error) {
+	c14calls++
+	if c14calls%11 == 0 {
+		bad := c14bad[(c14calls/11)%len(c14bad)]
+		bad.Marshal()
+		c.Count("marshal-after-unserialisable", 1)
+	}
+	switch c14calls % 5 {
+	case 0, 1:
+		entry = "Schema.Marshal"
+		out, err = s.Marshal()
+	case 2:
+		entry = "json.Marshal"
+		out, err = jsonx.Marshal(s)
+	case 3:
+		entry = "json.MarshalWrite"
+		var b bytes.Buffer
+		err = jsonx.MarshalWrite(&b, s)
+		out = b.Bytes()
+	default:
+		entry = "json.Marshal of a larger value with a Schema member"
+		var w struct {
+			Before []int        `json:"before"`
+			Schema *avro.Schema `json:"schema"`
+			After  string       `json:"after"`
+		}
+		w.Before, w.Schema, w.After = []int{1, 2}, s, "z"
+		out, err = jsonx.Marshal(&w)
+		const pre, post = `{"before":[1,2],"schema":`, `,"after":"z"}`
+		if err == nil {
+			if !bytes.HasPrefix(out, []byte(pre)) || !bytes.HasSuffix(out, []byte(post)) {
+				err = fmt.Errorf("the members around the schema are not what they should be: %s", trunc(string(out), 200))
+			} else {
+				out = out[len(pre) : len(out)-len(post)]
+			}
+		}
+	}
+	c.Count("marshal-entry."+entry, 1)
+	return
+}
+
 func c14roundTrip(c *core.Ctx, s avro.Schema, origin string, text string) {
-	out, err := s.Marshal()
+	out, entry, err := c14marshalVia(c, &s)
+	origin += ", serialised through " + entry
 	if c14prev.out != nil && string(c14prev.out) != string(c14prev.copy) {
 		c.Violate("marshal-invalid-json", fmt.Sprintf("the bytes returned by an earlier Marshal (schema from %s) changed when another schema was marshalled: now %q, were %q", c14prev.origin, trunc(string(c14prev.out), 200), trunc(string(c14prev.copy), 200)), map[string]any{"text": text})
 		c14prev.out = nil
@@ -187,12 +318,13 @@ func c14doc(c *core.Ctx, r *rand.Rand) {
 		c.Violate("harness", fmt.Sprintf("reference parser disagrees with the generator on %s: %v %s", trunc(text, 300), rerr, refavro.Diff(ref, ir, "")), nil)
 		return
 	}
-	s, err := avro.SchemaFromString(text)
+	s, entry, err := c14parseVia(c, r, text)
 	if err != nil {
-		c.Violate("parse-rejects-valid", fmt.Sprintf("valid schema document rejected: %v\n %s", err, trunc(text, 600)), map[string]any{"text": text})
+		c.Violate("parse-rejects-valid", fmt.Sprintf("valid schema document rejected (%s): %v\n %s", entry, err, trunc(text, 600)), map[string]any{"text": text})
 		return
 	}
 	if d := cmpLibIR(s, ir, "schema"); d != "" {
+		d += " [parsed through " + entry + "; the input bytes were overwritten once the parse had returned]"
 		c.Violate("parse-structure", fmt.Sprintf("%s\n document %s", d, trunc(text, 600)), map[string]any{"text": text})
 		return
 	}
